@@ -66,7 +66,7 @@ def main():
         for meta in sorted(glob.glob(os.path.join(VERIF, "seeded", "*", "meta.json"))):
             m = json.load(open(meta))
             items.append({"property": m["property"], "name": os.path.basename(os.path.dirname(meta)), "patch": os.path.join(os.path.dirname(meta), "patch.diff"),
-                          "tier": m.get("tier", "quick"), "checks": m.get("detected_by", [m["property"]])})
+                          "tier": m.get("tier", "quick"), "checks": m.get("detected_by") or [m["property"]]})
     else:
         from selftest import mutants
         items = [dict(m, checks=[m["property"]]) for m in mutants.M]
